@@ -49,7 +49,7 @@ def ev(e, env=None):
             return math.copysign(math.inf, a)
         return a / b
     if k == "fn1":
-        return _fn1(e[1], _f(ev(e[2], env)))
+        return _fn1(e[1], _f(ev(e[2], env)), exact=(e[2][0] == "q"))
     if k == "fn2":
         return _fn2(e[1], _f(ev(e[2], env)), _f(ev(e[3], env)))
     a = ev(e[1], env)
@@ -58,6 +58,8 @@ def ev(e, env=None):
     if k == "abs":
         return abs(a)
     x = _f(a)
+    if env and env.get("signed_zero") == "unjudged" and k in ("sqrt", "log") and e[1][0] != "q" and abs(x) <= 1e-9:
+        raise Unjudged("inexact argument at the end of the function's domain")
     if k == "sqrt":
         return math.sqrt(x) if x >= 0 else math.nan
     if k == "exp":
@@ -122,7 +124,14 @@ def _safe(f, *a):
         return math.inf
 
 
-def _fn1(name, x):
+# where a function's domain ends: an argument computed in floating point that lands within rounding distance of such a point may
+# fall on either side of it in another, equally accurate, evaluation (acosh(asin(sin(1))) is 0 or NaN): not judged
+_EDGES = {"acos": (-1.0, 1.0), "asin": (-1.0, 1.0), "acosh": (1.0,), "atanh": (-1.0, 1.0), "log": (0.0,), "log10": (0.0,), "log1p": (-1.0,), "sqrt": (0.0,)}
+
+
+def _fn1(name, x, exact=True):
+    if not exact and name in _EDGES and any(abs(x - b) <= 1e-9 * max(1.0, abs(b)) for b in _EDGES[name]):
+        raise Unjudged("inexact argument at the end of the function's domain")
     if name == "not-judged":
         raise Unjudged("discontinuous element on an operand binary64 cannot hold exactly")
     if name == "truthy":
